@@ -1323,7 +1323,7 @@ KNOWN_CLASS = {"F4": (M_DRAINLEFT, "F4_witness.cases"), "F5": (M_PREPHELD, "F5_w
 
 # theorems pinned per property (coq/Props/<prop>.v)
 PINS = {
-    "C01": ["C01_exactly_once_fifo", "F4_refuted"], "C02": ["C02_fifo_lifecycle", "C02_order_gating_partial"], "C03": ["C03_once_partial"],
+    "C01": ["C01_exactly_once_fifo", "F4_refuted"], "C02": ["C02_fifo_lifecycle", "C02_order_gating_partial"], "C03": ["C03_lifecycle", "C03_lifecycle_checked", "C03_decomposition", "C03_once_partial"],
     "C04": ["C04_owner_count_partial"], "C05": ["C05_as_checked", "C05_ret_exactly_once", "C05_calls_not_lost", "C05_ret_exactly_once_checked", "C05_ret_once_partial"], "C06": ["C06_quiescence_lazy_idle", "C06_plain_any_deferrer"],
     "C15": ["C15_time"], "C16": ["C16_released_once_partial", "C16_decomposition", "C16_heap_partial"], "C20": ["C20_open_close_filter", "C20_filter_table"],
 }
@@ -1341,8 +1341,8 @@ CLAIM = {
                 missing=""),
     "C02": dict(partial=False, proved="C02_fifo_lifecycle: forall p fuel t, exec DGlobal fuel p = Done t -> C02_ok t = true (per-actor FIFO of calls across Prep->Ready, lifecycle gating, discards justified by termination / teardown; global / thread-local deferrer); C02_order_gating_partial: one-item facts",
                 missing=""),
-    "C03": dict(partial=True, proved="C03_once_partial: termination makes a Zombie and takes the notifier once; Close+Notify pushed together; stop/fail first-writer-wins",
-                missing="forall-programs statement of C03_ok: validated on traces only"),
+    "C03": dict(partial=True, proved="C03_lifecycle: forall d p fuel t, exec d fuel p = Done t -> no_container_leak t -> okL t = true (lifecycle conjunct of C03_ok: Prep->Ready->Zombie / Prep->Zombie only, nothing starts after the notification, is_zombie true from then on, notifier invoked exactly once, value dropped exactly once after Ready and not after a cause notification, nothing owed at the end; hypothesis decidable on the trace: no leaked closure / value / notifier); C03_decomposition: okL t = true -> okK t = true -> C03_ok t = true; C03_once_partial: one-step facts (terminate makes a Zombie and takes the notifier once, Close+Notify pushed together, stop/fail first-writer-wins)",
+                missing="the cause conjunct okK for all programs (the notified cause is the first stop/fail of the body / a requested kill / Dropped; the value is not dropped while a method of the actor runs): validated on traces only"),
     "C04": dict(partial=True, proved="C04_owner_count_partial: translated strong count is an exact counter below saturation; last owner drop queues terminate(Dropped) at the end of the main queue",
                 missing="forall-programs statement of C04_ok (count = number of live owners needs linearity of handles over the whole configuration): validated on traces only"),
     "C05": dict(partial=False, proved="C05_as_checked: forall p fuel t, exec DGlobal fuel p = Done t -> NoDup (ret_ids t) -> no_container_leak t -> C05_ok t && C05_calls_ok t = true; C05_ret_exactly_once: the first conjunct for either deferrer (every Ret created once and invoked exactly once, with the value sent or None where it is dropped); C05_calls_not_lost: the second conjunct without hypotheses (DGlobal). The two hypotheses are decidable on the trace (distinct Ret ids; no leaked closure / actor value / notifier) and cannot be dropped: F5, F7, a self-reference cycle and the inline-deferrer leftover are refuted at model level (C05_*_model)",
